@@ -46,7 +46,7 @@ TIERS = {
 
 COLOR_OF = {(255, 255, 255, 255): "white", (0, 128, 0, 255): "green", (0, 255, 0, 255): "green", (0, 0, 255, 255): "blue", (0, 255, 255, 255): "cyan",
             (255, 0, 0, 255): "red", (255, 255, 0, 255): "yellow", (255, 0, 255, 255): "magenta"}
-MERGE_GAP = 6  # frames: display changes closer than this belong to one transmission window
+MERGE_GAP = 14  # frames: activity closer than this (null padding <= 5, channel-2 burst <= 6 words) belongs to one transmission window
 
 
 def gen_knobs(rng):
@@ -282,6 +282,7 @@ def check_run(knobs, script, stats, log, seed_label):
                            "%s=%s (frame %d) of %s is not within the window of any display change; windows=%s\n%s" % (what, t, f, pid, [(w[0], w[1], w[3][:2]) for w in wins][:30], text[:1500]))
   # ---- quiescent frames
   unit = Fraction(1001, 30000) if df else Fraction(1, 30)
+  soft = []
   seq = []
   prev_last = None
   for i, w in enumerate(wins + [None]):
@@ -321,8 +322,19 @@ def check_run(knobs, script, stats, log, seed_label):
         gd, ed = dict((r, c) for r, c in g), dict((r, c) for r, c in exp_cmp)
         if all(gd.get(r) == ed.get(r) for r in set(gd) | set(ed) if r not in reused):
           kind += ":overwritten-row"
-      raise core.Violation("display-differs:%s:%s" % (md or "none", kind),
-                           "frame %d (t=%s): reader shows %s\nreference shows %s\n%s" % (fmid, t, _show(g), _show(exp_cmp), text[:2500]))
+      elif reused and rollup and len(g) == len(exp_cmp):
+        # rows are compared by order here: the differing ones must all be re-addressed rows
+        ref_rows = [r for r, _c in expected]
+        if all(gc == ec for (_gr, gc), (_er, ec), rr in zip(g, exp_cmp, ref_rows) if rr not in reused):
+          kind += ":overwritten-row"
+      v = core.Violation("display-differs:%s:%s" % (md or "none", kind),
+                         "frame %d (t=%s): reader shows %s\nreference shows %s\n%s" % (fmid, t, _show(g), _show(exp_cmp), text[:2500]))
+      if kind.endswith(":overwritten-row"):
+        # a separately classified defect class: note it and keep comparing the rest of the run
+        if v.signature not in [x.signature for x in soft]:
+          soft.append(v)
+        continue
+      raise v
     if not rollup and [r for r, _c in g] != [r for r, _c in exp_cmp]:
       raise core.Violation("display-differs:%s:rows" % (md or "none"),
                            "frame %d (t=%s): reader rows %s, reference rows %s\nreader %s\n%s" % (fmid, t, [r for r, _ in g], [r for r, _ in exp_cmp], _show(g), text[:2500]))
@@ -333,7 +345,7 @@ def check_run(knobs, script, stats, log, seed_label):
     h = core.small_hash(_show(ref608.render(st)))
     if not states or states[-1] != h:
       states.append(h)
-  return states, text
+  return states, text, soft
 
 
 def _show(rows):
@@ -376,13 +388,21 @@ def run_one(rng, case, stats, rec, log, ctx=None):
   label = core.canon([knobs["start"], knobs["df"], len(script)])
   stats.count("style." + "+".join(knobs["styles"]))
   stats.count("clock." + ("DF" if knobs["df"] else "NDF"))
-  seq1, text = check_run(knobs, script, stats, log, label)
+  seq1, text, soft1 = check_run(knobs, script, stats, log, label)
   # transparency of benign channel faults: same script, other channel configuration
   k2 = dict(knobs, chan=knobs["chan2"])
-  seq2, _ = check_run(k2, script, stats, log, label + "b")
+  seq2, _, soft2 = check_run(k2, script, stats, log, label + "b")
   if seq1 != seq2:
     raise core.HarnessError("the reference display sequence depends on the channel configuration")
   log.add("done", len(script))
+  soft = []
+  for v in soft1 + soft2:
+    if v.signature not in [x.signature for x in soft]:
+      soft.append(v)
+  if soft:
+    for v in soft[1:]:
+      rec.extra.append((v.signature, v.detail, rec.case()))
+    raise soft[0]
 
 
 def valid_script(ops):
@@ -396,7 +416,11 @@ def valid_script(ops):
   prev_mid = False
   for u in ops:
     k = u[0]
-    if k in ("gap", "cut"):
+    if k == "gap":
+      if mode in ("roll", "paint"):
+        have_pos = False  # the text of one row is sent contiguously: after idle time a row starts with a PAC
+      continue
+    if k == "cut":
       continue
     is_mid = k == "mid"
     if k == "ctl":
@@ -463,8 +487,8 @@ def shrink(case, is_bad, deadline):
     if u[0] == "txt" and len(u[1]) > 1:
       yield ["txt", u[1][: max(1, len(u[1]) // 2)]]
       yield ["txt", u[1][:1]]
-    if u[0] == "gap" and u[1] > 10:
-      yield ["gap", 10]
+    if u[0] == "gap" and u[1] > 20:
+      yield ["gap", 20]
     if u[0] == "pac" and u[4]:
       yield [u[0], u[1], u[2], u[3], False]
   ops = shr.shrink_each(ops, simpler_unit, lambda o: is_bad({"knobs": knobs, "ops": o}), deadline)
